@@ -384,7 +384,8 @@ package godi
 //@   nopanic
 //@   safety[C15,C13,C09]
 //@   unchecked index#2: results[ret.Index] relies on reflect.Value.Call returning NumOut values and on the analysed return indices
-//@   unchecked index#3: results[descriptor.MultiReturnIndex] relies on the index recorded at registration being an output index of the same constructor
+//@   unchecked index#3: results[ret.Index] relies on reflect.Value.Call returning NumOut values and on the analysed return indices
+//@   unchecked index#4: results[descriptor.MultiReturnIndex] relies on the index recorded at registration being an output index of the same constructor
 //@   requires recv: s != nil && s.rootProvider != nil && s.rootProvider.analyzer != nil
 //@   ensures[C15] nil_descriptor: descriptor == nil ==> result0 == nil && typeis(result1, "*ValidationError") && ncalls("scope.setInstance") == 0 && ncalls("scope.setAliasedInstance") == 0
 //@   ensures[C15] error_means_no_value: result1 != nil ==> result0 == nil
@@ -1186,6 +1187,7 @@ package godi
 //@        || (ncalls("addOptions.Validate") == 1 && callret("addOptions.Validate", 0, 0) != nil)
 //@        || (ncalls("reflection.Analyzer.Analyze") == 1 && callret("reflection.Analyzer.Analyze", 0, 1) != nil)
 //@        || typeis(result, "*TypeMismatchError")
+//@        || (typeis(result, "*ValidationError") && ncalls("collection.registerDescriptor") == 0 && ncalls("reflection.Analyzer.Analyze") == 1)
 //@        || (ncalls("collection.registerDescriptor") >= 1 && callret("collection.registerDescriptor", ncalls("collection.registerDescriptor") - 1, 0) != nil))
 //@   ensures[C17] rejected_registration_leaves_the_build_list_unchanged: result != nil ==> len(r.allDescriptors) == len(old(r.allDescriptors))
 //@        && (forall i int :: 0 <= i && i < len(r.allDescriptors) ==> r.allDescriptors[i] == old(r.allDescriptors)[i])
